@@ -230,6 +230,12 @@ func (s *Server) deleteObjectsHandler(w http.ResponseWriter, r *http.Request) {
 				k += *ve.versionID
 			}
 			entriesForKey := resultByKeyVersion[k]
+			if len(entriesForKey) == 0 && ve.versionID != nil {
+				// A storage reports an entry it refused (e.g. a failed ETag
+				// condition) without echoing the requested version id.
+				k = ve.key.String() + "\x00"
+				entriesForKey = resultByKeyVersion[k]
+			}
 			entry := storage.DeleteObjectsEntry{Key: ve.key, Deleted: true}
 			ok := len(entriesForKey) > 0
 			if ok {
